@@ -201,6 +201,8 @@ func Instantiate(w *World, sim *simrt.Sim, st *core.Stats) *Runtime {
 			rt.args[i] = argmapper.Converter(42)
 		case ArgNilFunc:
 			rt.args[i] = argmapper.ConverterFunc(nil)
+		case ArgNilConv:
+			rt.args[i] = argmapper.Converter(nil)
 		case ArgFilterIn:
 			rt.args[i] = argmapper.FilterInput(rt.makeFilter(a))
 		case ArgFilterOut:
